@@ -40,6 +40,21 @@ pub fn f64_pool() -> Vec<f64> {
         1e300,
         f64::MAX,
         f64::INFINITY,
+        // added by the coverage audit
+        f64::MIN_POSITIVE,
+        f64::EPSILON,
+        2.5e-9,
+        0.1,
+        0.5,
+        0.999_999_999_999_999_9, // 1 - 2^-53: the nanoseconds round up to a whole second
+        4.0,
+        86_400.0,
+        1_000_000_000.0,
+        4_503_599_627_370_495.5, // 2^52 - 0.5
+        9_007_199_254_740_991.0, // 2^53 - 1
+        9_007_199_254_740_994.0, // 2^53 + 2
+        1e18,
+        4_611_686_018_427_387_904.0, // 2^62
     ];
     let mut v = vec![];
     for x in base {
@@ -72,6 +87,17 @@ pub fn f32_pool() -> Vec<f32> {
         1e19,
         f32::MAX,
         f32::INFINITY,
+        // added by the coverage audit
+        f32::MIN_POSITIVE,
+        f32::EPSILON,
+        0.1,
+        0.5,
+        2.0,
+        4.0,
+        86_400.0,
+        8_388_608.5, // 2^23 + 0.5
+        16_777_215.0, // 2^24 - 1
+        4_611_686_018_427_387_904.0, // 2^62
     ];
     let mut v = vec![];
     for x in base {
@@ -394,6 +420,142 @@ pub fn muldiv(r: &Report) {
     r.outcome("muldiv_verdict_in_tolerance_band(either accepted)", t[3]);
     r.outcome("div_by_infinity(zero or refusal accepted)", t[4]);
     r.require(t[0] > 0 && t[1] > 0 && t[2] > 0, "mul/div both succeed and panic; strict oracle exercised");
+}
+
+/// Is the magnitude `v` (an integer) exactly representable with `prec`
+/// significant bits?
+fn fits_bits(v: u128, prec: u32) -> bool {
+    v == 0 || 128 - (v >> v.trailing_zeros()).leading_zeros() <= prec
+}
+
+/// mul_f32 / div_f32: pool x f32 pool.
+///
+/// Same oracle as `muldiv`, for a computation carried out in `f32` seconds
+/// (24 significant bits): in general a relative accuracy of 2^-21 plus the
+/// 64 ns of the `f32` constructor is all that can be demanded, and the
+/// overflow verdict is only required outside that band. Where every `f32`
+/// step is exact (the duration's seconds, nanoseconds and their sum are
+/// `f32` values and the product/quotient is one too) the result must be
+/// exact for whole seconds (within 64 ns otherwise) and the overflow verdict
+/// is exact.
+pub fn muldiv32(r: &Report) {
+    let xs = f32_pool();
+    let p = pool();
+    let idx: Vec<(usize, usize)> = (0..p.len()).flat_map(|i| (0..xs.len()).map(move |j| (i, j))).collect();
+    let tallies: Vec<[u64; 5]> = idx
+        .par_iter()
+        .map(|&(i, j)| {
+            let (n, d) = p[i];
+            let x = xs[j];
+            let mut t = [0u64; 5]; // ok, panic, strict cases, lenient-verdict cases, div-by-inf
+            let case = || format!("d={} rhs={:e}f32 (bits {:#010x})", ds(n), x, x.to_bits());
+            r.add_states(1);
+            r.add_transitions(2);
+            r.add_validated(2);
+            let nm = n.unsigned_abs();
+            let (c, c_exact) = round_ratio(nm, NS as u128, 24);
+            // every step of as_secs_f32 is exact
+            let c_exact = c_exact && fits_bits(nm % NS as u128, 24);
+            let whole = |mag: Mag| matches!(mag, Mag::Val { floor, exact: true } if floor % NS as u128 == 0);
+            let lenient = |mag: Mag| match mag {
+                Mag::Val { floor, .. } => 66 + (floor >> 21),
+                Mag::Huge => 0,
+            };
+            // ---- mul_f32
+            {
+                let (a, class) = if !x.is_finite() {
+                    (Allowed { must_ok: false, must_err: true, lo: 0, hi: 0, exact_desc: "non-finite product".into() }, "")
+                } else {
+                    let (xneg, m, e) = decomp(x as f64);
+                    let neg = (n < 0) != xneg;
+                    let mag = mul_mag(nm, m, e);
+                    let strict = nm == 0 || m == 0 || (c_exact && {
+                        let (_, mc, _) = decomp(c);
+                        fits_bits(mc * m, 24)
+                    });
+                    let tol = if strict { if whole(mag) { 0 } else { 64 } } else { lenient(mag) };
+                    if strict {
+                        t[2] += 1;
+                    }
+                    let class = if strict && !neg && mag == (Mag::Val { floor: HI as u128 + 1, exact: true }) { ":product==2^63s" } else { "" };
+                    (allowed(mag, neg, tol), class)
+                };
+                if !a.must_ok && !a.must_err {
+                    t[3] += 1;
+                }
+                let got = guard(|| d.mul_f32(x)).ok();
+                t[if got.is_some() { 0 } else { 1 }] += 1;
+                if let Some((kind, detail)) = verdict(&a, &got) {
+                    let kind = match kind {
+                        "accepted-out-of-range" => "no-panic",
+                        "spurious-overflow" => "spurious-panic",
+                        k => k,
+                    };
+                    r.viol("sd_float_muldiv32", &format!("SignedDuration::mul_f32/{}{}", kind, class), case(), detail);
+                }
+            }
+            // ---- div_f32
+            {
+                let got = guard(|| d.div_f32(x)).ok();
+                t[if got.is_some() { 0 } else { 1 }] += 1;
+                if x.is_infinite() {
+                    // quotient is 0: a zero result or a refusal of the
+                    // non-finite operand are both accepted
+                    t[4] += 1;
+                    if let Some(g) = got {
+                        if !matches!(guard(|| g.is_zero()), Ok(true)) {
+                            r.viol("sd_float_muldiv32", "SignedDuration::div_f32/value:rhs-infinite", case(), format!("jiff {} model 0", show(g)));
+                        }
+                    }
+                } else {
+                    let (a, class) = if x.is_nan() || x == 0.0 {
+                        (Allowed { must_ok: false, must_err: true, lo: 0, hi: 0, exact_desc: "non-finite quotient".into() }, if x == 0.0 { ":rhs==0" } else { "" })
+                    } else {
+                        let (xneg, m, e) = decomp(x as f64);
+                        let neg = (n < 0) != xneg;
+                        let mag = div_mag(nm, m, e);
+                        // the f32 quotient is exact and finite: power-of-two
+                        // divisor, result within the normal f32 range
+                        let strict = nm == 0
+                            || (c_exact && is_pow2(m) && {
+                                let q = c / x as f64; // exact in f64 (power-of-two scaling)
+                                q.abs() >= f32::MIN_POSITIVE as f64 && q.abs() <= f32::MAX as f64
+                            });
+                        let tol = if strict { if whole(mag) { 0 } else { 64 } } else { lenient(mag) };
+                        if strict {
+                            t[2] += 1;
+                        }
+                        let class = if strict && !neg && mag == (Mag::Val { floor: HI as u128 + 1, exact: true }) { ":quotient==2^63s" } else { "" };
+                        (allowed(mag, neg, tol), class)
+                    };
+                    if !a.must_ok && !a.must_err {
+                        t[3] += 1;
+                    }
+                    if let Some((kind, detail)) = verdict(&a, &got) {
+                        let kind = match kind {
+                            "accepted-out-of-range" => "no-panic",
+                            "spurious-overflow" => "spurious-panic",
+                            k => k,
+                        };
+                        r.viol("sd_float_muldiv32", &format!("SignedDuration::div_f32/{}{}", kind, class), case(), detail);
+                    }
+                }
+            }
+            t
+        })
+        .collect();
+    let mut t = [0u64; 5];
+    for x in tallies {
+        for k in 0..5 {
+            t[k] += x[k];
+        }
+    }
+    r.outcome("muldiv32_ok", t[0]);
+    r.outcome("muldiv32_panic", t[1]);
+    r.outcome("muldiv32_exact_float_path(strict oracle)", t[2]);
+    r.outcome("muldiv32_verdict_in_tolerance_band(either accepted)", t[3]);
+    r.outcome("div32_by_infinity(zero or refusal accepted)", t[4]);
+    r.require(t[0] > 0 && t[1] > 0 && t[2] > 0, "mul_f32/div_f32 both succeed and panic; strict oracle exercised");
 }
 
 /// div_duration_f64 / div_duration_f32 over all ordered pairs.
